@@ -28,7 +28,7 @@ Placements(o) ==
            [] o = "p"  -> {<<None, None>>, <<"on", None>>}
            [] o = "i"  -> {<<None, None>>, <<"in1", None>>, <<None, "in1">>, <<"EMPTY", "in1">>, <<"in1", "EMPTY">>}
            [] o = "o"  -> {<<None, None>>, <<"out1", None>>, <<None, "out1">>, <<"EMPTY", "out1">>, <<"out1", "EMPTY">>}
-           [] o = "s"  -> {<<None, None>>, <<"s1", None>>, <<None, "s1">>}
+           [] o = "s"  -> {<<None, None>>, <<"s1", None>>, <<None, "s1">>, <<"EMPTY", None>>, <<None, "EMPTY">>}
            [] o = "d"  -> {<<None, None>>, <<"map1", None>>, <<None, "map1">>}
            [] o = "hb" -> {<<None, None>>, <<"m1", None>>, <<"h0", None>>, <<"h32", None>>, <<"h33", None>>,
                            <<None, "h33">>, <<None, "h8">>, <<"h8", "h33">>, <<"h33", "h8">>, <<None, "m1">>}
@@ -40,7 +40,7 @@ Placements(o) ==
            [] o = "p"  -> {<<None, None>>, <<"on", None>>}
            [] o = "i"  -> {<<None, None>>, <<"in1", None>>, <<None, "in1">>, <<"EMPTY", "in1">>}
            [] o = "o"  -> {<<None, None>>, <<"out1", None>>, <<None, "out1">>, <<"out1", "EMPTY">>}
-           [] o = "s"  -> {<<None, None>>, <<"s1", None>>, <<None, "s1">>}
+           [] o = "s"  -> {<<None, None>>, <<"s1", None>>, <<None, "EMPTY">>, <<"EMPTY", "s1">>}
            [] o = "d"  -> {<<None, None>>, <<"map1", None>>, <<None, "map1">>}
            [] o = "hb" -> {<<None, None>>, <<"m1", None>>, <<"h0", None>>, <<"h32", None>>, <<"h33", None>>,
                            <<None, "h33">>, <<"h8", "h33">>, <<"h33", "h8">>}
@@ -52,7 +52,7 @@ Placements(o) ==
            [] o = "pv" -> {<<None, None>>, <<"on", None>>, <<None, "true">>}
            [] o = "i"  -> {<<"in1", None>>, <<"EMPTY", "in2">>}
            [] o = "o"  -> {<<None, "out1">>, <<None, None>>}
-           [] o = "s"  -> {<<None, None>>, <<"s1", None>>}
+           [] o = "s"  -> {<<None, None>>, <<"s1", None>>, <<"EMPTY", "s2">>, <<None, "EMPTY">>}
            [] o = "d"  -> {<<None, None>>, <<None, "map1">>}
            [] o = "w"  -> {<<None, None>>, <<"w1", None>>}
            [] o = "pp" -> {<<None, None>>, <<"pp1", None>>}
@@ -65,7 +65,7 @@ Placements(o) ==
            [] o = "pv" -> {<<None, None>>, <<"on", None>>, <<None, "true">>}
            [] o = "i"  -> {<<"in1", None>>, <<"EMPTY", "in2">>}
            [] o = "o"  -> {<<None, "out1">>}
-           [] o = "s"  -> {<<None, None>>, <<"s1", None>>}
+           [] o = "s"  -> {<<None, None>>, <<"s1", None>>, <<"EMPTY", "s2">>}
            [] o = "d"  -> {<<None, None>>, <<None, "map1">>}
            [] o = "pp" -> {<<None, None>>, <<"pp1", None>>}
            [] o = "pa" -> {<<None, None>>, <<"pa1", None>>, <<None, "parfc">>}
@@ -76,7 +76,7 @@ Placements(o) ==
            [] o = "u"  -> {<<None, None>>, <<"on", "false">>}
            [] o = "i"  -> {<<"in1", "in2">>}
            [] o = "o"  -> {<<"out2", "out1">>}
-           [] o = "s"  -> {<<"s1", None>>, <<None, "s2">>, <<"s2", "s1">>}
+           [] o = "s"  -> {<<"s1", None>>, <<None, "s2">>, <<"s2", "s1">>, <<"EMPTY", "s1">>, <<None, "EMPTY">>}
            [] o = "d"  -> {<<None, None>>, <<"map2", "map1">>}
            [] o = "w"  -> {<<None, None>>, <<"w2", "w1">>}
            [] o = "n"  -> {<<None, None>>, <<None, "n1">>}
@@ -90,7 +90,7 @@ Placements(o) ==
          CASE o = "a"  -> {<<"on", None>>, <<None, "true">>}
            [] o = "i"  -> {<<"in1", "in2">>}
            [] o = "o"  -> {<<None, "out1">>}
-           [] o = "s"  -> {<<"s1", None>>, <<"s2", "s1">>}
+           [] o = "s"  -> {<<"s1", None>>, <<"s2", "s1">>, <<"EMPTY", "s1">>}
            [] o = "d"  -> {<<None, None>>, <<"map2", "map1">>}
            [] o = "w"  -> {<<None, None>>, <<"w2", "w1">>}
            [] o = "r"  -> {<<None, None>>, <<"r1", "r2">>}
